@@ -23,25 +23,25 @@ CHECKS = {
     "C05": ("exploration", "declarative out-of-date oracle + need fixpoint predicting exact event multisets; silent re-run monitor; file-backed histories with execution counters (byte-identical rebuilds, symlinked sources)",
             "Held on the sampled store states: call executions, store writes, reads and producer side-writes matched the oracle's exact multiset; an immediately repeated run was silent.",
             "oracle reads 'older than' strictly on logical-clock instants; dedicated unstored producers for dependent sources", "3/C05"),
-    "C06": ("exploration", "history checker + identity monitors on injected exception objects under yield injection; registry runs with failing writers checked on effective dependencies",
+    "C06": ("exploration", "history checker + identity monitors on injected exception objects under yield injection; registry runs with failing writers checked on effective dependencies; unusual failing calls (thousands of dependents below, unprintable function / scope objects, exceptions that cannot be re-created from their args)",
             "Held on the sampled failing runs: nothing downstream of a failed call started; run raised CallError whose call failed in this run and whose __cause__ is the recorded exception object; with one worker it was the first failure.",
             "exceptions remembered by identity under the harness lock", "3/C06"),
-    "C07": ("exploration", "logical deadlock detector on kernel thread states (/proc futex parking + ctx-switch counters), bounded-progress livelock criterion for display threads, thread census, cycle placements; fault injection into every user callback (stores, observers, retry, transform_physical, Thread.start)",
+    "C07": ("exploration", "logical deadlock detector on kernel thread states (/proc futex parking + ctx-switch counters), bounded-progress livelock criterion for display threads, thread census, cycle placements; fault injection into every user callback (stores, observers, retry, transform_physical, Thread.start); plans built by code with unusual file names judged by a spinning-thread (bounded progress) criterion",
             "Held on the sampled runs: no logically quiescent state with run un-returned was ever observed, nothing was left running or alive after return, and every cycle among examined nodes was reported before any call/store event.",
             "Linux /proc/self/task/<tid>/{syscall,status}; untimed futex wait = parked; progress=None in these runs", "3/C07"),
     "C08": ("fault_enumeration", "event-indexed fault injection at EVERY boundary event of each generated case + post-cut oracle + repair-run oracles (also with retry absorbing an earlier transient fault, and with the cut placed in the repeated hour of a DST zone)",
             "For each generated case every cut index k (call start, read, write before/after effect, mtime query) x fault kind x configuration was executed; post-cut up-to-date values equal from-scratch values and the repair run rebuilt exactly the out-of-date ones. Exhaustive per case, cases sampled.",
             "in-memory stores atomic per operation; file-backed crash variant uses fork + os._exit", "3/C08"),
-    "C09": ("exploration", "offline ordering checker on stamped store/call history (successful runs and failed runs that go on under max_errors) + identity of values returned by normalising stores",
+    "C09": ("exploration", "offline ordering checker on stamped store/call history (successful runs and failed runs that go on under max_errors) + identity of values returned by normalising stores; single-preemption enumeration of the stale check above a stored value whose other stored input is being rebuilt",
             "Held on the sampled rebuilding runs: write < read-back < consumer start, plain dependents after the write, downstream stores rewritten later, consumers/outputs hold the store's read object.",
             "normalising stores make read values distinguishable from written ones", "3/C09"),
-    "C10": ("exploration", "in-flight counters + assertions at logically quiescent states driven by a wave scheduler; count/attempt monitors (incl. retry-exhausting store operations); error limit checked with the limit-crossing worker held at every instruction of its failure bookkeeping",
+    "C10": ("exploration", "in-flight counters + assertions at logically quiescent states driven by a wave scheduler; count/attempt monitors (incl. retry-exhausting store operations); error limit checked with the limit-crossing worker held at every instruction of its failure bookkeeping; at-most-once execution under single-preemption enumeration of join shapes",
             "Held on the sampled runs: never more than max_workers operations (nor stale_check_max_workers mtime queries) in flight; at every quiescent state exactly min(W, ready) calls were running; max_errors and retry counts/identities as stated.",
             "quiescence from kernel thread state; readiness from the IR", "3/C10"),
-    "C11": ("fault_enumeration", "file-operation fault shim (every operation index x errno / persistent same-kind failure / non-Exception abort / os._exit in a forked child, with and without a leftover staging file, RLIMIT_FSIZE short writes) + strace syscall fault injection; filesystem snapshot oracle",
+    "C11": ("fault_enumeration", "file-operation fault shim (every operation index x errno / persistent same-kind failure / non-Exception abort / os._exit in a forked child, with and without a leftover staging file, RLIMIT_FSIZE short writes; unprivileged writers killed over read-only targets) + strace syscall fault injection; filesystem snapshot oracle",
             "For each generated write every file-operation index was faulted (exception and process death): target holds complete old or complete new bytes, mtime unchanged unless new, no staging file after an exception, leftovers do not disturb later operations.",
             "open/os substitution in uberjob.stores._file_store inside the harness process; strace tier cross-checks on real syscalls", "3/C11"),
-    "C12": ("exploration", "round-trip monitors over generated values per store domain and mount kind",
+    "C12": ("exploration", "round-trip monitors over generated values per store domain and mount kind; a second store object looking between the file operations of a rewrite",
             "Held on the sampled values: read-after-write equal with identical types for every bundled store, direct and mounted; modified time None exactly before the first write and non-decreasing.",
             "values from each store's documented domain", "3/C12"),
     "C13": ("exploration", "identity-level structural snapshots of Plan/Registry (nodes, scopes, edges, entries, and a fingerprint of every other attribute) before vs after every operation kind; concurrent runs vs reference; building on copies",
